@@ -9,6 +9,7 @@ import (
 	"runtime/debug"
 	"sort"
 	"strconv"
+	"strings"
 	"time"
 )
 
@@ -155,8 +156,8 @@ func runWorker(p *Prop, tier string, seed uint64, offset, stride, max int, budge
 		}
 		if rep.HarnessErr != "" {
 			res.HarnessErrs = append(res.HarnessErrs, fmt.Sprintf("run %d: %s", idx, rep.HarnessErr))
-			if len(res.HarnessErrs) > 5 {
-				break
+			if len(res.HarnessErrs) > 5 || strings.Contains(rep.HarnessErr, "watchdog") {
+				break // a stuck task goroutine is still out there: this process is of no further use
 			}
 		}
 		if len(res.Samples) < 2 && rep.NonTrivial && (idx/stride)%7 == 3 {
